@@ -232,6 +232,8 @@ pub struct World {
     /// further (e.g. the mover's king is attacked) while the property that would report it is
     /// not being judged: the run stops here, quietly.
     pub poisoned: bool,
+    /// what the owner did last: 0 other, 1 pop, 2 accepted special move
+    pub last_owner: u8,
 }
 
 pub fn digest_key(k: &PosKey) -> u64 {
@@ -365,6 +367,7 @@ impl World {
             pos_digests: Vec::new(),
             info: None,
             poisoned: false,
+            last_owner: 0,
         }
     }
 
@@ -430,6 +433,9 @@ impl World {
     // -------------------------------------------------------------- dispatcher
 
     pub fn exec(&mut self, op: &Op) -> R {
+        if !matches!(op, Op::Push(_) | Op::Pop | Op::S(_, _) | Op::Spawn) {
+            self.last_owner = 0;
+        }
         let r = match op {
             Op::Push(ml) => self.op_push(ml),
             Op::PushUnchecked(m) => self.op_push_unchecked(m),
@@ -877,6 +883,38 @@ impl World {
         Ok(())
     }
 
+    /// Rare-condition probes that need the position the move was made from.
+    pub(crate) fn note_geometry(&mut self, pos: &Pos, m: &RMove) {
+        let promo = m.promo_piece().is_some();
+        let capture = pos.sq[m.dst as usize] != 0;
+        if promo && capture {
+            self.stats.hit("probe.promotion-with-capture");
+            if matches!(m.dst, 0 | 7 | 56 | 63) && rm::piece_of(pos.sq[m.dst as usize]) == rm::R {
+                self.stats.hit("probe.promotion-capturing-rook-on-home-square");
+            }
+        }
+        if m.kind == rm::K_EP && (m.src % 8 == 0 || m.src % 8 == 7 || m.dst % 8 == 0 || m.dst % 8 == 7) {
+            self.stats.hit("probe.ep-on-edge-file");
+        }
+        if m.kind == rm::K_CASTLE_K || m.kind == rm::K_CASTLE_Q {
+            let (q, k) = if pos.white { (rm::WQ, rm::WK) } else { (rm::BQ, rm::BK) };
+            if pos.castling[q] != pos.castling[k] {
+                self.stats.hit("probe.castling-with-a-single-right");
+            }
+        }
+        if capture && matches!(m.dst, 0 | 7 | 56 | 63) && rm::piece_of(pos.sq[m.dst as usize]) == rm::R {
+            let i = match m.dst {
+                56 => rm::WQ,
+                63 => rm::WK,
+                0 => rm::BQ,
+                _ => rm::BK,
+            };
+            if pos.castling[i] {
+                self.stats.hit("probe.capture-of-home-rook-that-still-had-its-right");
+            }
+        }
+    }
+
     fn note_move_kind(&mut self, m: &Move, made: bool) {
         use owlchess::MoveKind::*;
         let k = match (m.kind(), made) {
@@ -954,10 +992,21 @@ impl World {
                     }
                 }
                 self.note_move_kind(&applied, true);
+                self.note_geometry(&info.pos, &rmove_of(&applied));
+                if self.last_owner == 1 {
+                    self.stats.hit("probe.push-right-after-pop");
+                }
                 self.ref_accept(applied, true)?;
                 let k = self.rc.keys.last().unwrap().clone();
                 self.expect_spy(&[SpyEv::Push(k)])?;
+                self.last_owner = if applied.kind() == owlchess::MoveKind::Simple { 0 } else { 2 };
+                return Ok(Exec::Done);
             }
+        }
+        if self.last_owner == 1 {
+            self.stats.hit("probe.refusal-right-after-pop");
+        } else if self.last_owner == 2 {
+            self.stats.hit("probe.refusal-right-after-special-move");
         }
         Ok(Exec::Done)
     }
@@ -1144,6 +1193,12 @@ impl World {
         }
         self.stats.hit("op.pop");
         self.invalidate();
+        self.last_owner = 1;
+        match self.rc.count_key(&left_key) {
+            2 => self.stats.hit("probe.pop-of-position-counted-twice"),
+            n if n >= 3 => self.stats.hit("probe.pop-of-position-counted-3-or-more"),
+            _ => {}
+        }
         let want_mv = self.rc.moves[len0 - 1];
         if self.on(C13) {
             if got != Some(want_mv) {
